@@ -3,7 +3,7 @@
     All definitions about the Rust code are the rs2v-generated ones of [Gen/Package.v], [Gen/CltvChecks.v], [Gen/PackageFeerate.v] (regenerated
     from the source on every run) except the two input walks of [Model/PackageTimer.v]. *)
 Require Import LdkV.Prim.U64 LdkV.Prim.Rs2vLib LdkV.Gen.Consts LdkV.Gen.Package LdkV.Gen.CltvChecks
-  LdkV.Gen.PackageFeerate LdkV.Model.PackageTimer LdkV.Proofs.C08.
+  LdkV.Gen.PackageFeerate LdkV.Model.PackageTimer .
 Open Scope Z_scope.
 
 (** * Ranges *)
@@ -279,10 +279,10 @@ Qed.
 (** * Trajectories: successive bumps of one claim at a fixed weight *)
 
 (** What the package remembers between broadcasts is only the feerate; the fee of the previous
-    broadcast is recomputed from it. [tracked w f r]: [r] is the feerate recorded for a broadcast
+    broadcast is recomputed from it. [fee_tracked w f r]: [r] is the feerate recorded for a broadcast
     that paid fee [f] -- either [f] was computed from [r] (first broadcast, re-broadcast) or [r]
     was computed from [f] (bump). *)
-Definition tracked (w f r : Z) : Prop :=
+Definition fee_tracked (w f r : Z) : Prop :=
   0 <= r /\ (f = prev_fee r w \/ (0 <= f /\ r = f * 1000 / w)).
 
 Lemma rounding_loss w f : 0 < w -> 0 <= f ->
@@ -300,7 +300,7 @@ Proof.
   lia.
 Qed.
 
-Lemma tracked_bounds w f r : 0 < w -> tracked w f r ->
+Lemma fee_tracked_bounds w f r : 0 < w -> fee_tracked w f r ->
   prev_fee r w <= f <= prev_fee r w + w / 1000 + 1.
 Proof.
   intros Hw (Hr & [E | (Hf & E)]).
@@ -313,9 +313,9 @@ Qed.
     [w/1000 + 1] -- in particular it strictly increases; a re-broadcast pays the fee recomputed from
     the recorded rate, which is [f] or at most [w/1000 + 1] sat less (see [rebroadcast_can_dip]). *)
 Lemma fee_bump_chain w amt dust f r strat sweep f' r' :
-  fb_in_range w amt dust r sweep -> tracked w f r ->
+  fb_in_range w amt dust r sweep -> fee_tracked w f r ->
   feerate_bump w amt dust r strat sweep = Some (f', r') ->
-  r <= r' /\ tracked w f' r' /\
+  r <= r' /\ fee_tracked w f' r' /\
   ((r' = r /\ f - (w / 1000 + 1) <= f' <= f) \/
    (f + min_relay_fee w - (w / 1000 + 1) <= f' /\ f < f')).
 Proof.
@@ -323,7 +323,7 @@ Proof.
   pose proof Hr as (Hw & Ha & Hd & Hp & Hpw & Hs).
   assert (Hw0 : 0 < w) by (unfold W0 in Hw; lia).
   destruct (fee_bump_some _ _ _ _ _ _ _ _ Hr H) as (Hge & Hcase & _ & _).
-  pose proof (tracked_bounds w f r Hw0 Ht) as Hb.
+  pose proof (fee_tracked_bounds w f r Hw0 Ht) as Hb.
   assert (Hpf : 0 <= prev_fee r w) by (unfold prev_fee; apply Z.div_pos; [apply Z.mul_nonneg_nonneg|]; lia).
   assert (Hmr : w / 1000 + 1 < min_relay_fee w).
   { unfold min_relay_fee, INCREMENTAL_RELAY_FEE_SAT_PER_1000_WEIGHT. unfold W0 in Hw. lia. }
@@ -335,7 +335,7 @@ Qed.
 (** The first broadcast of a claim ([compute_package_output] with [feerate_previous = 0]). *)
 Lemma first_broadcast_tracked amt w sweep f r :
   0 < w -> 0 <= amt -> 0 <= sweep ->
-  compute_fee_from_spent_amounts amt w sweep = Some (f, r) -> tracked w f r.
+  compute_fee_from_spent_amounts amt w sweep = Some (f, r) -> fee_tracked w f r.
 Proof.
   intros Hw Ha Hs H. destruct (cs_spec _ _ _ _ _ Hw Ha Hs H) as (_ & Hfl & _ & Hf & _).
   unfold FEERATE_FLOOR_SATS_PER_KW in Hfl. split; [lia|]. left. exact Hf.
@@ -386,7 +386,7 @@ Qed.
 
 Lemma trajectory w amt dust steps : forall f r,
   W0 <= w <= MAX_WEIGHT -> 0 <= amt <= MAX_MONEY_SAT -> 0 < dust < 2 ^ 63 ->
-  0 <= r -> r * w <= MAX_PREV_RATE_X_WEIGHT -> tracked w f r ->
+  0 <= r -> r * w <= MAX_PREV_RATE_X_WEIGHT -> fee_tracked w f r ->
   steps_in_range steps ->
   chain_ok w f r (bumps w amt dust r steps).
 Proof.
@@ -545,8 +545,19 @@ Proof.
   - apply Z.ltb_lt. unfold LOW_FREQUENCY_BUMP_INTERVAL, HIGH_FREQUENCY_BUMP_INTERVAL in *. lia.
 Qed.
 
-(** * [confirmation_threshold]: the burial/CSV bounds are C08's [threshold_ge] (same generated
-      definition); added here: no [u32] overflow/underflow for realistic heights. *)
+(** * [confirmation_threshold] (the same statement as C08's [threshold_ge], proved here as well so that
+      this development does not depend on another property's proof file) *)
+Lemma threshold_ge height kind delay csv :
+  confirmation_threshold height kind delay csv >= height + ANTI_REORG_DELAY - 1 /\
+  (kind = OnchainEventKind_MaturingDelayedPaymentOutput ->
+     confirmation_threshold height kind delay csv >= height + delay - 1) /\
+  (forall c, kind = OnchainEventKind_SpendConfirmation -> csv = Some c ->
+     confirmation_threshold height kind delay csv >= height + c - 1).
+Proof.
+  unfold confirmation_threshold. destruct kind, csv as [c|]; repeat split; intros; try discriminate;
+    try (match goal with H : Some _ = Some _ |- _ => injection H as <- end); lia.
+Qed.
+
 Lemma threshold_spec h kind tsd csv :
   h + ANTI_REORG_DELAY - 1 <= confirmation_threshold h kind tsd csv /\
   (kind = OnchainEventKind_MaturingDelayedPaymentOutput -> h + tsd - 1 <= confirmation_threshold h kind tsd csv) /\
@@ -555,7 +566,7 @@ Lemma threshold_spec h kind tsd csv :
   (1 <= h -> 0 <= tsd < 2 ^ 16 -> (forall c, csv = Some c -> 0 <= c < 2 ^ 16) -> h + 2 ^ 16 < 2 ^ 32 ->
      confirmation_threshold_safe h kind tsd csv = true).
 Proof.
-  destruct (LdkV.Proofs.C08.threshold_ge h kind tsd csv) as (T1 & T2 & T3).
+  destruct (threshold_ge h kind tsd csv) as (T1 & T2 & T3).
   split; [lia|]. split; [intros E; specialize (T2 E); lia|].
   split; [intros c E1 E2; specialize (T3 c E1 E2); lia|].
   unfold confirmation_threshold_safe, ANTI_REORG_DELAY.
